@@ -48,7 +48,11 @@ def half_bound(I):
     return '[%s,%s]' % (F.fnum(I[0] * 0.5), F.fnum(I[1] * 0.5))
 
 
-CONFIGS = (('1s', 1.0, F.default_bound, None), ('500ms', 0.5, half_bound, (500, 'ms')))
+def mixed_units_bound(I):
+    return '[%ds,%dms]' % (I[0], I[1] * 1000)
+
+
+CONFIGS = (('1s', 1.0, F.default_bound, None), ('500ms', 0.5, half_bound, (500, 'ms')), ('1s-mixed-units', 1.0, mixed_units_bound, None))
 
 
 def check_case(case, specs=None):
